@@ -738,92 +738,180 @@ Section Local.
     constructor; [apply good_leaf|constructor].
   Qed.
 
-  (* the node of get_state(obj.shape) for a rank-1 array: a tuple the dumper creates around len(obj) *)
-  Lemma shape_local n st1 shj st2 :
-    shape_state [n] st1 = (shj, st2) -> (is_small_int n = true -> Objs (PScalar (small_int_base + n) (SInt n))) ->
-    (base <= d_next st1)%Z -> (0 < base)%Z ->
-    (d_next st1 < d_next st2)%Z /\
-    forall fuel m1 sl shn m2, get_tree fuel E proto [] sl m1 shj = Ok (shn, m2) -> memo_lt m1 (d_next st1) -> Out 2 (d_next st2) shn m2.
+  (* ================= objects the dumper creates itself: closures, one run at a time ================= *)
+  Definition PVC (r : nat) (c : clo) : Prop :=
+    forall st j st', c st = Ok (j, st') -> (base <= d_next st)%Z ->
+      (d_next st <= d_next st')%Z /\
+      forall fuel m sl n m', get_tree fuel E proto [] sl m j = Ok (n, m') -> memo_lt m (d_next st) -> Out r (d_next st') n m'.
+
+  Lemma PVC_mono r r' c : (r <= r')%nat -> PVC r c -> PVC r' c.
   Proof.
-    intros Hsh Hio Hb Hb0. destruct (is_small_int n) eqn:Hsm.
-    - rewrite (shape_state_small n st1 Hsm) in Hsh. specialize (Hio eq_refl).
-      set (i := (small_int_base + n)%Z) in *. set (st2' := snd (fresh st1)) in *.
-      assert (Hn2 : d_next st2' = (d_next st1 + 1)%Z) by reflexivity.
-      match type of Hsh with (?a, _) = _ => set (shj' := a) in Hsh end.
-      injection Hsh as <- <-. split; [lia|]. unfold shj'. clear shj'.
-      intros fuel m1 sl shn m2 Ekt Hlt.
-      assert (Hmem2 : memo_mem (key (d_next st1)) m1 = false) by (apply (memo_lt_fresh _ (d_next st1)); [exact Hlt|lia]).
-      destruct fuel as [|fuel]; [discriminate Ekt|]. unfold proto in Ekt.
-      rewrite (gt_step E Hreg fuel sl m1 _ _ _ _ (d_next st1) (s "_general.TupleNode") KTuple) in Ekt;
-        [|reflexivity|cbn; tauto|reflexivity]. rewrite Hmem2 in Ekt.
-      assert (HQi : Forall PV [PScalar i (SInt n)]) by (constructor; [apply scalar_PV; exact Hio|constructor]).
-      assert (Hx1 : own (d_next st1) 2) by (right; lia).
-      assert (Hx3 : (base <= d_next st2')%Z) by lia.
-      assert (Hst : states_of (fun x s0 => get_state D x s0) [PScalar i (SInt n)] st2' = Ok ([json_state (show_Z n) i], st2')) by reflexivity.
-      apply (seq_local QTuple (d_next st1) (s "tuple") (s "builtins") [PScalar i (SInt n)] st2' [json_state (show_Z n) i] st2' 2 Hx1 ltac:(lia) HQi Hst Hx3
-               ltac:(intros x [<-|[]]; cbn; lia) ltac:(lia) fuel m1 sl (d_next st2') shn m2 Ekt); [|lia|lia].
-      eapply memo_lt_le; [|exact Hlt]. lia.
-    - clear Hio. unfold shape_state, fresh in Hsh. cbn [shape_items] in Hsh. unfold int_obj, fresh in Hsh. rewrite Hsm in Hsh. cbn [d_next] in Hsh.
-      set (tid := d_next st1) in *. set (i := (tid + 1)%Z) in *.
-      injection Hsh as <- <-. cbn [d_next]. split; [lia|].
-      intros fuel m1 sl shn m2 Ekt Hlt. destruct fuel as [|fuel]; [discriminate Ekt|]. unfold proto in Ekt.
-      set (t0 := show_Z n) in *.
-      rewrite (gt_step E Hreg fuel sl m1 _ _ _ _ tid (s "_general.TupleNode") KTuple) in Ekt; [|reflexivity|cbn; tauto|reflexivity].
-      assert (Hmem2 : memo_mem (key tid) m1 = false) by (apply (memo_lt_fresh _ tid); [exact Hlt|lia]).
-      rewrite Hmem2 in Ekt.
-      set (jt := node_state (CodecDump.K "tuple") (CodecDump.K "builtins") (CodecDump.K "TupleNode")
-                   [(CodecDump.K "content", JArr [json_state t0 i])] tid) in *.
-      assert (Hbd : forall rec, build E rec sl [] (s "_general.TupleNode") KTuple m1 jt
-              = do (h, m0) <- node_init sl KTuple (s "_general.TupleNode") [] true m1 jt JNull;
-                do (c, m') <- rec [] (SElem (GetTree.K "content")) m0 (json_state t0 i);
-                Ok (Node h [c], m')).
-      { intros rec. unfold build. destruct (node_init _ _ _ _ _ _ _ _) as [[h m0]|]; [|reflexivity]. cbn [bind].
-        change (jindex jt (GetTree.K "content")) with (Ok (A:=json) (JArr [json_state t0 i])). cbn [bind jiter sub_list].
-        destruct (rec [] (SElem (GetTree.K "content")) m0 (json_state t0 i)) as [[c m']|]; reflexivity. }
-      rewrite Hbd in Ekt. unfold jt in Ekt at 1. rewrite init_eq in Ekt by (try reflexivity; unfold tid; lia). cbn [bind] in Ekt. clear Hbd.
-      destruct fuel as [|fuel]; [discriminate Ekt|].
-      unfold json_state in Ekt at 1.
-      rewrite (gt_step E Hreg fuel (SElem (GetTree.K "content")) (key tid :: m1) _ _ _ _ i (s "_general.JsonNode") KJson) in Ekt;
-        [|reflexivity|cbn; tauto|reflexivity].
-      assert (Hm0 : memo_lt (key tid :: m1) (tid + 1)) by (apply memo_lt_cons; [lia|]; eapply memo_lt_le; [|exact Hlt]; unfold tid; lia).
-      rewrite (memo_lt_fresh _ (tid + 1) i Hm0 ltac:(unfold i; lia)) in Ekt.
-      set (ji := node_state (CodecDump.K "str") (CodecDump.K "builtins") (CodecDump.K "JsonNode")
-                   [(CodecDump.K "content", JStr t0); (CodecDump.K "is_json", JBool true)] i) in *.
-      assert (Hbi : forall rec, build E rec (SElem (GetTree.K "content")) [] (s "_general.JsonNode") KJson (key tid :: m1) ji
-              = do (h, m0) <- node_init (SElem (GetTree.K "content")) KJson (s "_general.JsonNode") [] true (key tid :: m1) ji JNull;
-                Ok (Node (set_aux h (JStr t0)) [], m0)).
-      { intros rec. unfold build. destruct (node_init _ _ _ _ _ _ _ _) as [[h m0]|]; reflexivity. }
-      rewrite Hbi in Ekt. unfold ji in Ekt at 1. rewrite init_eq in Ekt by (try reflexivity; unfold i, tid; lia). cbn [bind] in Ekt. clear Hbi.
-      injection Ekt as <- <-.
-      split; [apply memo_lt_cons; [lia|]; apply memo_lt_cons; [unfold i; lia|]; eapply memo_lt_le; [|exact Hlt]; unfold i, tid; lia|].
-      split; [|reflexivity].
-      eapply (good_alloc base Objs 2 _ _ tid); [exact Hb|reflexivity|reflexivity|lia|].
-      constructor; [|constructor].
-      eapply (good_alloc base Objs _ _ _ i); [unfold i; lia|reflexivity|reflexivity|lia|constructor].
+    intros Hr H st j st' Hc Hb. destruct (H st j st' Hc Hb) as [H1 H2]. split; [exact H1|].
+    intros fuel m sl n m' Hg Hm. destruct (H2 _ _ _ _ _ Hg Hm) as [A [B C]]. split; [exact A|]. split; [|exact C]. eapply good_mono; eauto.
+  Qed.
+  Lemma PV_PVC v : PV v -> PVC (need v) (fun s0 => get_state D v s0).
+  Proof. intros H st j st' Hc Hb. exact (H st j st' Hc Hb). Qed.
+
+  Lemma gen_localC r cs : Forall (PVC r) cs ->
+    forall st js st', run_all cs st = Ok (js, st') -> (base <= d_next st)%Z ->
+      (d_next st <= d_next st')%Z /\ length js = length cs /\
+      forall fuel m sls ns m', sub_gen (get_tree fuel E proto []) (combine sls js) m = Ok (ns, m') ->
+        length sls = length cs -> memo_lt m (d_next st) ->
+        memo_lt m' (d_next st') /\ Forall (fun n => notleaf n = true) ns /\ Forall (good base Objs r) ns.
+  Proof.
+    induction 1 as [|c cs Hx Hl IH]; intros st js st' H Hb; cbn [run_all] in H.
+    - injection H as <- <-. split; [lia|]. split; [reflexivity|]. intros fuel m sls ns m' Hs Hlen Hm.
+      destruct sls; [|discriminate Hlen]. cbn [combine sub_gen] in Hs. injection Hs as <- <-.
+      split; [exact Hm|]. split; constructor.
+    - inv_bind H. destruct (Hx _ _ _ E0 Hb) as [Hn1 Hx1]. destruct (IH _ _ _ E1 ltac:(lia)) as [Hn2 [Hlen2 IH1]].
+      split; [lia|]. split; [cbn [length]; congruence|].
+      intros fuel m sls ns m' Hs Hlen Hm. destruct sls as [|sl sls]; [discriminate Hlen|]. cbn [length] in Hlen.
+      cbn [combine sub_gen] in Hs.
+      destruct (get_tree fuel E proto [] sl m j) as [[n1 m1]|] eqn:Eg; [|discriminate Hs]. cbn [bind] in Hs.
+      destruct (sub_gen _ (combine sls l) m1) as [[ns2 m2]|] eqn:Eg2; [|discriminate Hs]. cbn [bind] in Hs.
+      injection Hs as <- <-.
+      destruct (Hx1 _ _ _ _ _ Eg Hm) as [Hlt1 [Hg1 Hnl1]].
+      destruct (IH1 _ _ _ _ _ Eg2 ltac:(lia) Hlt1) as [Hlt2 [Hnl2 Hg2]].
+      split; [exact Hlt2|]. split; constructor; assumption.
   Qed.
 
-  (* ---- rank-1 object arrays: the cells, then the shape tuple ---- *)
-  Lemma objarr_PV id cells :
-    let n := Z.of_nat (length cells) in
-    Objs (PObjArr id (s "numpy") (s "ndarray") [n] cells) ->
-    (is_small_int n = true -> Objs (PScalar (small_int_base + n) (SInt n))) -> Forall PV cells -> PV (PObjArr id (s "numpy") (s "ndarray") [n] cells).
+  (* a fresh list / tuple the dumper creates around the results of closures *)
+  Lemma fresh_seq_local q c r cs st items st1 :
+    Forall (PVC r) cs -> (base <= d_next st)%Z -> (0 < base)%Z ->
+    run_all cs (snd (fresh st)) = Ok (items, st1) ->
+    (d_next st <= d_next st1)%Z /\
+    forall fuel m sl n m',
+      get_tree fuel E proto [] sl m (node_state c (s "builtins") (seq_loader q) [(CodecDump.K "content", JArr items)] (d_next st)) = Ok (n, m') ->
+      memo_lt m (d_next st) -> Out (S r) (d_next st1) n m'.
   Proof.
-    intros n Hv Hio HQ st j st3 H Hb. cbn [get_state map] in H.
-    replace (Z.to_nat n) with (length cells) in H by (unfold n; rewrite Nat2Z.id; reflexivity).
-    rewrite (tolist_rank1 (fun x s0 => get_state D x s0)) in H.
+    intros Hcs Hb Hb0 Hrun. set (lid := d_next st) in *. set (st0 := snd (fresh st)) in *.
+    assert (Hna : d_next st0 = (lid + 1)%Z) by reflexivity.
+    destruct (gen_localC r cs Hcs _ _ _ Hrun ltac:(lia)) as [Hnext [Hlen HG0]]. split; [lia|].
+    intros fuel m sl n m' H Hm. destruct fuel as [|fuel]; [discriminate H|]. unfold proto in H.
+    rewrite (gt_step E Hreg fuel sl m _ _ _ _ lid (seq_tag q) (seq_kind q)) in H; [|reflexivity|destruct q; cbn; tauto|destruct q; reflexivity].
+    rewrite (memo_lt_fresh _ lid lid Hm ltac:(lia)) in H.
+    set (ld := seq_loader q) in *. set (tag := seq_tag q) in *. set (k := seq_kind q) in *.
+    assert (Hbd : build E (get_tree fuel E (JInt (e_cur E))) sl [] tag k m (node_state c (s "builtins") ld [(CodecDump.K "content", JArr items)] lid)
+            = do (h, m0) <- node_init sl k tag [] true m (node_state c (s "builtins") ld [(CodecDump.K "content", JArr items)] lid) JNull;
+              do (ns, m1) <- sub_list (get_tree fuel E (JInt (e_cur E))) [] (GetTree.K "content") m0 items;
+              Ok (Node h (or_empty (GetTree.K "content") LEmptyList ns), m1)).
+    { unfold k, tag, ld. destruct q; reflexivity. }
+    rewrite Hbd, init_eq in H by (try reflexivity; unfold lid; lia). cbn [bind] in H. clear Hbd.
+    rewrite sub_list_gen, <- combine_const in H.
+    destruct (sub_gen _ _ (key lid :: m)) as [[ns m1]|] eqn:Es; [|discriminate H]. cbn [bind] in H. injection H as <- <-.
+    destruct (HG0 _ _ _ _ _ Es) as [Hlt [Hnl Hg]].
+    { rewrite map_length. exact Hlen. }
+    { rewrite Hna. apply memo_lt_cons; [lia|]. eapply memo_lt_le; [|exact Hm]. lia. }
+    split; [exact Hlt|]. split; [|reflexivity].
+    apply (good_alloc base Objs (S r) _ _ lid); [unfold lid; lia|reflexivity| |lia|].
+    - unfold nice. cbn [mkh h_class h_module h_kind is_jstr andb].
+      assert (Hp : forallb leaf_plain (or_empty (GetTree.K "content") LEmptyList ns) = true).
+      { destruct ns as [|n1 ns']; [reflexivity|]. cbn [or_empty]. apply vl_plain_of_notleaf. exact Hnl. }
+      unfold k. destruct q; exact Hp.
+    - replace (S r - 1)%nat with r by lia.
+      destruct ns as [|n1 ns']; cbn [or_empty]; [constructor; [apply good_leaf|constructor]|]. exact Hg.
+  Qed.
+
+  (* one axis length inside get_state(obj.shape): a cached small int (an object of the value) or a fresh int object *)
+  Lemma int_PVC d : (0 < base)%Z -> (is_small_int d = true -> Objs (PScalar (small_int_base + d) (SInt d))) -> PVC 1 (int_clo d).
+  Proof.
+    intros Hb0 Hio st j st' H Hb. unfold int_clo, int_obj in H. destruct (is_small_int d) eqn:Hsm.
+    - injection H as <- <-. apply (scalar_PV _ _ (Hio eq_refl)); [reflexivity|exact Hb].
+    - destruct (fresh st) as [i st1] eqn:Hf. injection H as <- <-.
+      assert (Hi : i = d_next st /\ d_next st1 = (d_next st + 1)%Z) by (unfold fresh in Hf; injection Hf as <- <-; split; reflexivity).
+      destruct Hi as [-> Hn1]. split; [lia|]. set (i := d_next st) in *. set (t0 := show_Z d).
+      intros fuel m sl n m' H Hm. destruct fuel as [|fuel]; [discriminate H|]. unfold proto, json_state in H.
+      rewrite (gt_step E Hreg fuel sl m _ _ _ _ i (s "_general.JsonNode") KJson) in H; [|reflexivity|cbn; tauto|reflexivity].
+      rewrite (memo_lt_fresh _ i i Hm ltac:(lia)) in H.
+      set (ji := node_state (CodecDump.K "str") (CodecDump.K "builtins") (CodecDump.K "JsonNode")
+                   [(CodecDump.K "content", JStr t0); (CodecDump.K "is_json", JBool true)] i) in *.
+      assert (Hbi : forall rec, build E rec sl [] (s "_general.JsonNode") KJson m ji
+              = do (h, m0) <- node_init sl KJson (s "_general.JsonNode") [] true m ji JNull;
+                Ok (Node (set_aux h (JStr t0)) [], m0)).
+      { intros rec. unfold build. destruct (node_init _ _ _ _ _ _ _ _) as [[h m0]|]; reflexivity. }
+      rewrite Hbi in H. unfold ji in H at 1. rewrite init_eq in H by (try reflexivity; unfold i; lia). cbn [bind] in H. clear Hbi.
+      injection H as <- <-.
+      split; [rewrite Hn1; apply memo_lt_cons; [lia|]; eapply memo_lt_le; [|exact Hm]; lia|]. split; [|reflexivity].
+      eapply (good_alloc base Objs 1 _ _ i); [unfold i; lia|reflexivity|reflexivity|lia|constructor].
+  Qed.
+
+  (* the node of get_state(obj.shape): the empty-tuple singleton for shape (), a fresh tuple around the axis lengths otherwise *)
+  Lemma shape_local dims st1 shj st2 :
+    shape_state dims st1 = (shj, st2) ->
+    (forall d, In d dims -> is_small_int d = true -> Objs (PScalar (small_int_base + d) (SInt d))) ->
+    (dims = [] -> Objs empty_tuple_val) -> (base <= d_next st1)%Z -> (0 < base)%Z ->
+    (d_next st1 <= d_next st2)%Z /\
+    forall fuel m1 sl shn m2, get_tree fuel E proto [] sl m1 shj = Ok (shn, m2) -> memo_lt m1 (d_next st1) -> Out 2 (d_next st2) shn m2.
+  Proof.
+    intros Hsh Hio Het Hb Hb0. unfold shape_state in Hsh. destruct dims as [|d0 dims0].
+    - cbn [shape_items] in Hsh. injection Hsh as <- <-. split; [lia|].
+      intros fuel m1 sl shn m2 Hg Hm.
+      destruct (seq_PV QTuple empty_tuple_id (s "tuple") [] (Het eq_refl) (Forall_nil _) st1 _ st1 eq_refl Hb) as [_ HP].
+      destruct (HP _ _ _ _ _ Hg Hm) as [A [B C0]]. split; [exact A|]. split; [|exact C0]. eapply good_mono; [exact B|]. cbn [need max_map]. lia.
+    - set (dims := d0 :: dims0) in *. destruct (fresh st1) as [tid st0] eqn:Hf.
+      assert (Hi : tid = d_next st1 /\ st0 = snd (fresh st1)) by (rewrite Hf; unfold fresh in Hf; injection Hf as <- <-; split; reflexivity).
+      destruct Hi as [-> ->]. pose proof (shape_items_run dims (snd (fresh st1))) as Hrun.
+      destruct (shape_items dims (snd (fresh st1))) as [items st3]. injection Hsh as <- <-.
+      assert (HQ : forall ds, (forall d, In d ds -> is_small_int d = true -> Objs (PScalar (small_int_base + d) (SInt d))) ->
+                     Forall (PVC 1) (map int_clo ds)).
+      { induction ds as [|d ds IH]; intros Hio'; cbn [map]; constructor.
+        - apply int_PVC; [exact Hb0|]. apply Hio'. left. reflexivity.
+        - apply IH. intros d' Hd'. apply Hio'. right. exact Hd'. }
+      exact (fresh_seq_local QTuple (s "tuple") 1 _ st1 items st3 (HQ dims Hio) Hb Hb0 Hrun).
+  Qed.
+
+  (* get_state(obj.tolist()): one ListNode per axis below the first *)
+  Lemma raise_PVC r e : PVC r (fun _ => Raise e).
+  Proof. intros st j st' H. discriminate H. Qed.
+  Lemma tolist_PVC r : forall dims cs, Forall (PVC r) cs -> (0 < base)%Z -> PVC (length dims + r) (tolist_state dims cs).
+  Proof.
+    induction dims as [|d ds IH]; intros cs Hcs Hb0.
+    - cbn [tolist_state length]. destruct cs as [|c [|c' cs]]; try apply raise_PVC. inversion Hcs; assumption.
+    - rewrite tolist_state_cons. cbn [length].
+      assert (Hch : Forall (PVC (length ds + r)) (map (tolist_state ds) (chunks (nprod ds) d cs))).
+      { apply Forall_forall. intros c Hc. apply in_map_iff in Hc. destruct Hc as [ch [<- Hch]]. apply IH; [|exact Hb0].
+        pose proof (chunks_Forall (PVC r) (nprod ds) d cs Hcs) as Hf. rewrite Forall_forall in Hf. apply Hf. exact Hch. }
+      intros st j st' H Hb. unfold list_clo in H. destruct (fresh st) as [lid st0] eqn:Hf.
+      assert (Hi : lid = d_next st /\ st0 = snd (fresh st)) by (rewrite Hf; unfold fresh in Hf; injection Hf as <- <-; split; reflexivity).
+      destruct Hi as [-> ->].
+      destruct (run_all _ (snd (fresh st))) as [[items st1]|] eqn:Hrun; [|discriminate H]. cbn [bind] in H. injection H as <- <-.
+      exact (fresh_seq_local QList (s "list") (length ds + r) _ st items st1 Hch Hb Hb0 Hrun).
+  Qed.
+  Lemma content_PVC r dims cs : Forall (PVC r) cs -> (0 < base)%Z -> Forall (PVC (length dims + r)) (content_clos dims cs).
+  Proof.
+    intros Hcs Hb0. destruct dims as [|d ds]; cbn [content_clos].
+    - constructor; [exact (tolist_PVC r [] cs Hcs Hb0)|constructor].
+    - apply Forall_forall. intros c Hc. apply in_map_iff in Hc. destruct Hc as [ch [<- Hch]].
+      apply (PVC_mono (length ds + r)); [cbn [length]; lia|]. apply tolist_PVC; [|exact Hb0].
+      pose proof (chunks_Forall (PVC r) (nprod ds) d cs Hcs) as Hf. rewrite Forall_forall in Hf. apply Hf. exact Hch.
+  Qed.
+
+  (* ---- object arrays of every rank: the content (the cells below the lists of the further axes), then the shape tuple ---- *)
+  Lemma objarr_PV id shape cells :
+    Objs (PObjArr id (s "numpy") (s "ndarray") shape cells) ->
+    (forall d, In d shape -> is_small_int d = true -> Objs (PScalar (small_int_base + d) (SInt d))) ->
+    (shape = [] -> Objs empty_tuple_val) ->
+    Forall PV cells -> PV (PObjArr id (s "numpy") (s "ndarray") shape cells).
+  Proof.
+    intros Hv Hio Het HQ st j st3 H Hb. cbn [get_state] in H.
+    destruct (shape_okb shape (length cells)); [|discriminate H].
     destruct (fresh st) as [lid sta] eqn:Hfr.
-    destruct (states_of _ cells sta) as [[js st1]|] eqn:E0; [|discriminate H]. cbn [bind] in H.
-    change (jindex (list_state js lid) (CodecDump.K "content")) with (Ok (A:=json) (JArr js)) in H. cbn [bind] in H.
-    destruct (shape_state [n] st1) as [shj st2] eqn:Esh.
+    destruct (run_all _ sta) as [[js st1]|] eqn:E0; [|discriminate H]. cbn [bind] in H.
+    destruct (shape_state shape st1) as [shj st2] eqn:Esh.
     pose proof (Oid _ Hv) as Hid. cbn [pid] in Hid.
-    set (v := PObjArr id (s "numpy") (s "ndarray") [n] cells) in *.
+    set (v := PObjArr id (s "numpy") (s "ndarray") shape cells) in *.
     match type of H with Ok (?a, _) = _ => set (jv := a) in H end.
     injection H as <- <-.
     assert (Hd : lid = d_next st /\ d_next sta = (d_next st + 1)%Z).
     { unfold fresh in Hfr. injection Hfr as <- <-. cbn. split; reflexivity. }
     destruct Hd as [-> Hna].
-    destruct (gen_local cells HQ _ _ _ E0 ltac:(lia)) as [Hnext1 [Hlen HG0]].
-    destruct (shape_local n st1 shj st2 Esh Hio ltac:(lia) ltac:(lia)) as [Hn2 Hshape].
+    set (r := max_map (fun x => need x) cells).
+    assert (Hcl : Forall (PVC r) (map (fun x s0 => get_state D x s0) cells)).
+    { apply Forall_forall. intros c0 Hc0. apply in_map_iff in Hc0. destruct Hc0 as [x [<- Hx]].
+      apply (PVC_mono (need x)); [apply (max_map_in (fun x => need x)); exact Hx|]. apply PV_PVC. rewrite Forall_forall in HQ. apply HQ. exact Hx. }
+    pose proof (content_PVC r (map Z.to_nat shape) _ Hcl ltac:(lia)) as Hcc. rewrite map_length in Hcc.
+    destruct (gen_localC _ _ Hcc _ _ _ E0 ltac:(lia)) as [Hnext1 [Hlen HG0]].
+    destruct (shape_local shape st1 shj st2 Esh Hio Het ltac:(lia) ltac:(lia)) as [Hn2 Hshape].
     split; [lia|].
     unfold jv. change id with (pid v).
     apply (wrap v _ _ _ _ (s "_numpy.NdArrayNode") KNdArray (d_next st) (d_next st2)); try assumption; try reflexivity; try (cbn; tauto); [lia|].
@@ -849,8 +937,8 @@ Section Local.
       replace (leaf_plain shn) with true by (destruct shn; [reflexivity|reflexivity|discriminate Hknl]). rewrite andb_true_r.
       destruct ns as [|n1 ns']; [reflexivity|]. cbn [or_empty]. apply vl_plain_of_notleaf. exact Hnl.
     - apply Forall_app. split.
-      + destruct ns as [|n1 ns']; cbn [or_empty]; [constructor; [apply good_leaf|constructor]|]. apply Hg.
-        intros x Hx. pose proof (max_map_in (fun x => need x) x cells Hx). unfold v. cbn [need]. cbn beta in *. lia.
+      + destruct ns as [|n1 ns']; cbn [or_empty]; [constructor; [apply good_leaf|constructor]|].
+        rewrite Forall_forall in Hg. apply Forall_forall. intros x Hx. eapply good_mono; [apply Hg; exact Hx|]. unfold v, r. cbn [need]. lia.
       + constructor; [|constructor]. eapply good_mono; [exact Hkg|]. unfold v. cbn [need]. lia.
   Qed.
 
@@ -873,7 +961,7 @@ Section Local.
       apply Forall_map_snd. eapply Forall_imp2; [exact IH|apply vok_vals; exact Hvals].
     - intros id mo c f l IHf IH [Ho [-> [-> [Hi [Hf Hvals]]]]]. apply defdict_PV; try assumption; [apply IHf; exact Hf|].
       apply Forall_map_snd. eapply Forall_imp2; [exact IH|apply vok_vals; exact Hvals].
-    - intros id mo c sh l IH [Ho [-> [-> [-> [Hrt [Hio Hall]]]]]]. apply objarr_PV; try assumption.
+    - intros id mo c sh l IH [Ho [-> [-> [Hok [Hrt [Hio [Het Hall]]]]]]]. apply objarr_PV; try assumption.
       eapply Forall_imp2; [exact IH|apply vok_all; exact Hall].
     - intros id mo c d k IHd IHk [Ho [-> [-> [Hd Hk0]]]]. apply masked_PV; auto.
     - intros id mo c x IHx [Ho [Hr Hx]]. apply randstate_PV; auto.
